@@ -152,10 +152,30 @@ def _reads(rec):
 KNOWN_DEFAULTS = {
     # keyword -> values that are the documented default of the numpy / scipy / builtin callee it is used with in pyiga
     'endpoint': ('True',), 'copy': ('True',), 'order': ("'C'",), 'indexing': ("'xy'",), 'side': ("'left'",), 'keepdims': ('False',),
-    'reverse': ('False',), 'axis': ('None', '0'), 'k': ('0',), 'n': ('1',), 'step': ('1',), 'start': ('0',), 'verbose': ('False', '0'), 'kind': ("'quicksort'", 'None'), 'sparse': ('False',), 'check_finite': ('True',),
+    'reverse': ('False',), 'step': ('1',), 'start': ('0',), 'verbose': ('False', '0'), 'kind': ("'quicksort'", 'None'), 'sparse': ('False',), 'check_finite': ('True',),
     'overwrite_a': ('False',), 'overwrite_b': ('False',), 'lower': ('False',), 'return_index': ('False',), 'return_inverse': ('False',),
     'return_counts': ('False',), 'assume_unique': ('False',), 'exist_ok': ('False',), 'ignore_errors': ('False',), 'out': ('None',),
-    'dtype': ('None', 'float', 'np.float64', 'np.double'), 'format': ('None',), 'subok': ('True',), 'ndmin': ('0',),
+    'format': ('None',), 'subok': ('True',), 'ndmin': ('0',),
+}
+
+# defaults that depend on the callee (last component of its name); C-implemented numpy functions have no Python signature
+# that could be parsed, so the documented values are listed here
+_FLOAT = ('float', 'np.float64', 'np.double', 'np.float_', 'None')
+CALLEE_DEFAULTS = {
+    ('zeros', 'dtype'): _FLOAT, ('ones', 'dtype'): _FLOAT, ('empty', 'dtype'): _FLOAT, ('eye', 'dtype'): _FLOAT, ('identity', 'dtype'): _FLOAT,
+    ('array', 'dtype'): ('None',), ('asarray', 'dtype'): ('None',), ('asanyarray', 'dtype'): ('None',), ('arange', 'dtype'): ('None',),
+    ('linspace', 'dtype'): ('None',), ('full', 'dtype'): ('None',), ('zeros_like', 'dtype'): ('None',), ('ones_like', 'dtype'): ('None',),
+    ('empty_like', 'dtype'): ('None',), ('sum', 'dtype'): ('None',), ('cumsum', 'dtype'): ('None',), ('prod', 'dtype'): ('None',),
+    ('concatenate', 'axis'): ('0',), ('stack', 'axis'): ('0',), ('split', 'axis'): ('0',), ('array_split', 'axis'): ('0',),
+    ('sum', 'axis'): ('None',), ('prod', 'axis'): ('None',), ('any', 'axis'): ('None',), ('all', 'axis'): ('None',), ('max', 'axis'): ('None',),
+    ('min', 'axis'): ('None',), ('amax', 'axis'): ('None',), ('amin', 'axis'): ('None',), ('mean', 'axis'): ('None',), ('norm', 'axis'): ('None',),
+    ('cumsum', 'axis'): ('None',), ('cumprod', 'axis'): ('None',), ('repeat', 'axis'): ('None',), ('unique', 'axis'): ('None',),
+    ('append', 'axis'): ('None',), ('delete', 'axis'): ('None',), ('take', 'axis'): ('None',), ('flip', 'axis'): ('None',),
+    ('roll', 'axis'): ('None',), ('squeeze', 'axis'): ('None',), ('count_nonzero', 'axis'): ('None',), ('argmax', 'axis'): ('None',),
+    ('argmin', 'axis'): ('None',), ('sort', 'axis'): ('-1',), ('argsort', 'axis'): ('-1',), ('diff', 'axis'): ('-1',), ('cross', 'axis'): ('None',),
+    ('triu', 'k'): ('0',), ('tril', 'k'): ('0',), ('eye', 'k'): ('0',), ('diag', 'k'): ('0',), ('diagflat', 'k'): ('0',), ('diags', 'k'): ('0',),
+    ('triu_indices', 'k'): ('0',), ('tril_indices', 'k'): ('0',), ('diff', 'n'): ('1',), ('splev', 'der'): ('0',), ('splev', 'ext'): ('0',),
+    ('tensordot', 'axes'): ('2',), ('round', 'decimals'): ('0',), ('around', 'decimals'): ('0',),
 }
 
 
@@ -225,7 +245,8 @@ def _library_default(callee, kwname):
                     except Exception:
                         continue
                     for n in ast.walk(tree):
-                        if isinstance(n, (ast.FunctionDef, ast.AsyncFunctionDef)) and n.name == last:
+                        if isinstance(n, (ast.FunctionDef, ast.AsyncFunctionDef)) and n.name == last \
+                                and not any('from_c_func' in src(d) for d in n.decorator_list):
                             # dispatcher stubs (`def _f_dispatcher(...)`) have other names; this is the public definition
                             a = n.args
                             pos = a.posonlyargs + a.args
@@ -251,6 +272,8 @@ def _is_default_keyword(expr, kwname):
                     continue
                 if src(kw.value) in KNOWN_DEFAULTS.get(kwname, ()):
                     return True
+                if src(kw.value) in CALLEE_DEFAULTS.get((src(c.func).split('.')[-1], kwname), ()):
+                    return True
                 # a function of the repository itself: spelling out the declared default changes nothing
                 callee = src(c.func)
                 if _declared_default(_PROG[0], callee, kwname) == src(kw.value):
@@ -263,6 +286,9 @@ def _is_default_keyword(expr, kwname):
 
 def classify(ref_rec, cur_rec):
     """('equal'|'mutation'|'different', description)"""
+    if {ref_rec[0], cur_rec[0]} == {'break', 'continue'}:
+        # the rest of the loop is skipped instead of the rest of the iteration (or the other way round)
+        return 'mutation', '%s replaced by %s' % (ref_rec[0], cur_rec[0])
     if ref_rec[0] != cur_rec[0] or len(ref_rec[1]) != len(cur_rec[1]):
         return 'different', None
     muts = []
